@@ -574,7 +574,62 @@ def check_shared(case):
     return R(fails, nt=True, n=4, labels=['part:shared', 'shared-inner:' + case['inner'].replace('%s', 'X')])
 
 
+# --------------------------------------------------------------------------
+# criteria arrays (added after seed c05-b-r5): COUNTIF/SUMIF/AVERAGEIF lifted over an array of criteria
+# --------------------------------------------------------------------------
+CRIT_POOL = [5.0, '>50', '7', '<zz', '<>abc', 'abc', 'a*', '>=7', '<>7', True, '=60', '<>']
+CRIT_DATA = [[[5.0], ['60'], ['7'], ['abc'], ['zz']],
+             [['7'], [7.0], [None], ['ABC'], [True]],
+             [[60.0], ['60'], ['5'], ['a7'], [100.0]]]
+
+
+def enum_criteria():
+    for fn in ('COUNTIF', 'SUMIF', 'AVERAGEIF'):
+        for di, _ in enumerate(CRIT_DATA):
+            for a, b in itertools.permutations(range(len(CRIT_POOL)), 2):
+                yield {'k': 'criteria', 'fn': fn, 'd': di, 'crit': [a, b], 'mode': 'lit' if (a + b) % 2 else 'rng'}
+            for trip in ((0, 3, 1), (2, 4, 7), (1, 5, 0), (6, 0, 3), (9, 3, 2), (10, 4, 8)):
+                yield {'k': 'criteria', 'fn': fn, 'd': di, 'crit': list(trip), 'mode': 'lit'}
+
+
+def check_criteria(case):
+    """F(range, {c1, c2, ..}) is [F(range, c1), F(range, c2), ..]: the criteria argument is lifted element by element and
+    no element sees what an earlier one computed.  Scalar oracle: the same function with one criterion (the repo itself)."""
+    fn, crits = case['fn'], [CRIT_POOL[i] for i in case['crit']]
+    data = [[BLANK if v is None else v for v in row] for row in CRIT_DATA[case['d']]]
+    inputs = {'D1:D5': data}
+    acc = '' if fn == 'COUNTIF' else ',E1:E5'
+    if acc:
+        inputs['E1:E5'] = [[1.0], [10.0], [100.0], [1000.0], [10000.0]]
+    n = len(crits)
+    if case['mode'] == 'lit':
+        ctext = '{%s}' % ','.join(X.literal(c, paren_negative=False) for c in crits)
+    else:
+        ctext = 'G1:%s1' % 'GHI'[n - 1]
+        inputs[ctext] = [list(crits)]
+    whole = run_cell(dest_ref((1, n)), '=%s(D1:D5,%s%s)' % (fn, ctext, acc), inputs)
+    singles = []
+    for c in crits:
+        if case['mode'] == 'lit':
+            m = run_cell('A1', '=%s(D1:D5,%s%s)' % (fn, X.literal(c, paren_negative=False), acc), {k: v for k, v in inputs.items() if k[0] != 'G'})
+        else:
+            m = run_cell('A1', '=%s(D1:D5,G1%s)' % (fn, acc), dict({k: v for k, v in inputs.items() if k[0] != 'G'}, G1=[[c]]))
+        singles.append(None if m is None else m[0][0])
+    fails = []
+    if whole is None or None in singles:
+        fails.append(('criteria|%s|no-output' % fn, 'no output: %r %r' % (whole, singles)))
+    else:
+        pos = L.same_matrix(whole, [singles])
+        if pos is not None:
+            k_ = 'shape' if pos == 'shape' else '%s-after-%s' % (X.cls(crits[pos[1]]), '+'.join(sorted({X.cls(c) for c in crits[:pos[1]]})) or 'none')
+            fails.append(('criteria|%s|%s|%s' % (fn, case['mode'], k_), '=%s(D1:D5,%s%s) gives %r, one criterion at a time %r (range %r)' % (
+                fn, ctext if case['mode'] == 'lit' else crits, acc, whole, singles, data)))
+    return R(fails, nt=True, n=1 + n, labels=['part:criteria', 'criteria-fn:' + fn, 'criteria-mode:' + case['mode']])
+
+
 def check_case(case):
+    if case['k'] == 'criteria':
+        return check_criteria(case)
     if case['k'] == 'shared':
         return check_shared(case)
     if case['k'] == 'nest':
@@ -897,5 +952,6 @@ def _parts(tier, seed, q):
         ('enum', 'many-kinds', enum_many_kinds(), 20, False),
         ('enum', 'nested', enum_nest(), 40, False),
         ('enum', 'shared-subexpression', enum_shared(), 20, False),
+        ('enum', 'criteria-arrays', enum_criteria(), 40, False),
         ('hyp', 'rand', 800 if q else 40000),
     ]
